@@ -474,11 +474,25 @@ func TestVerifC19CrashHelper(t *testing.T) {
 		fmt.Println("HELPER-ERROR", err)
 		os.Exit(7)
 	}
-	if err := atomicfile.WriteFile(filepath.Join(dir, "manifest.json"), bytes.Repeat([]byte("NEW-MANIFEST-"), 4000), 0o644); err != nil {
+	if err := atomicfile.WriteFile(filepath.Join(dir, "blob.bin"), bytes.Repeat([]byte("NEW-BLOB-"), 4000), 0o644); err != nil {
+		fmt.Println("HELPER-ERROR", err)
+		os.Exit(7)
+	}
+	// the real install-manifest writer (not only the primitive underneath it)
+	if err := SaveManifest(filepath.Join(dir, "manifest.json"), crashManifest("new", 60)); err != nil {
 		fmt.Println("HELPER-ERROR", err)
 		os.Exit(7)
 	}
 	os.Exit(0)
+}
+
+// crashManifest builds an install manifest of n entries (several KiB on disk).
+func crashManifest(tag string, n int) *Manifest {
+	m := &Manifest{SchemaVersion: ManifestSchemaVersion, Installs: map[string]ManifestEntry{}}
+	for i := 0; i < n; i++ {
+		m.Installs[fmt.Sprintf("conn-%s-%03d@1.0.%d", tag, i, i)] = ManifestEntry{}
+	}
+	return m
 }
 
 // TestVerifC19Crash kills the helper with SIGKILL at EVERY file-system syscall boundary of the real write path (strace fault
@@ -499,12 +513,18 @@ func TestVerifC19Crash(t *testing.T) {
 	syscalls := "openat,write,fsync,fdatasync,rename,renameat,renameat2,fchmodat,fchmod,chmod,close,unlink,unlinkat"
 	oldState, _ := json.Marshal(index.State{Version: 1, LastVerifiedContentHash: strings.Repeat("a", 64)})
 	newState, _ := json.Marshal(index.State{Version: 2, LastVerifiedContentHash: strings.Repeat("b", 64)})
-	oldManifest := bytes.Repeat([]byte("old-manifest-"), 3000)
-	newManifest := bytes.Repeat([]byte("NEW-MANIFEST-"), 4000)
+	oldBlob := bytes.Repeat([]byte("old-blob-"), 3000)
+	newBlob := bytes.Repeat([]byte("NEW-BLOB-"), 4000)
+	oldManifest, _ := json.MarshalIndent(crashManifest("old", 40), "", "  ")
+	// fresh = first write ever (no previous files: afterwards each file is absent or complete), existing = replacement
+	fresh := false
 	prepare := func() string {
 		dir, _ := os.MkdirTemp("", "verif-c19-crash-")
-		_ = os.WriteFile(filepath.Join(dir, "index-state.json"), oldState, 0o644)
-		_ = os.WriteFile(filepath.Join(dir, "manifest.json"), oldManifest, 0o644)
+		if !fresh {
+			_ = os.WriteFile(filepath.Join(dir, "index-state.json"), oldState, 0o644)
+			_ = os.WriteFile(filepath.Join(dir, "blob.bin"), oldBlob, 0o644)
+			_ = os.WriteFile(filepath.Join(dir, "manifest.json"), oldManifest, 0o644)
+		}
 		return dir
 	}
 	runHelper := func(dir, inject string) (string, error) {
@@ -516,78 +536,97 @@ func TestVerifC19Crash(t *testing.T) {
 		}
 		args = append(args, self, "-test.run", "^TestVerifC19CrashHelper$")
 		cmd := exec.Command("strace", args...)
-		cmd.Env = append(os.Environ(), "VERIF_C19_HELPER_DIR="+dir)
+		// one OS thread running Go code and no preemption signals: the helper's file-system syscalls then have the same
+		// ordinals in every run (otherwise runtime threads interleave their own openat/close calls)
+		cmd.Env = append(os.Environ(), "VERIF_C19_HELPER_DIR="+dir, "GOMAXPROCS=1", "GODEBUG=asyncpreemptoff=1")
 		out, err := cmd.CombinedOutput()
 		return string(out), err
 	}
-	// measure N from an uninjected run
-	dir := prepare()
-	if out, err := runHelper(dir, ""); err != nil {
-		rep.Cap("uninjected helper run under strace failed: " + err.Error() + " " + out)
-		os.RemoveAll(dir)
-		rep.EvalN(1)
-		rep.State("strace-failed")
-		rep.State("strace-failed-2")
-		rep.Sample("strace failed")
-		return
-	}
-	total := 0
-	if b, err := os.ReadFile(filepath.Join(dir, "strace-count.txt")); err == nil {
-		for _, l := range strings.Split(string(b), "\n") {
-			f := strings.Fields(l)
-			if len(f) >= 4 && strings.Contains(syscalls, f[len(f)-1]) && f[len(f)-1] != "total" {
-				n, _ := strconv.Atoi(f[3])
-				total += n
-			}
-		}
-	}
-	os.RemoveAll(dir)
-	if total < 10 || total > 2000 {
-		rep.Cap(fmt.Sprintf("implausible number of file-system syscalls measured: %d", total))
-		total = 200
-	}
-	rep.Bound("file_syscalls_in_write_path", total)
-	check := func(kind string, k int, dir string, helperOut string) {
-		for file, pair := range map[string][2][]byte{"index-state.json": {oldState, newState}, "manifest.json": {oldManifest, newManifest}} {
-			got, err := os.ReadFile(filepath.Join(dir, file))
-			rep.Eval()
-			if err != nil || (!bytes.Equal(got, pair[0]) && !bytes.Equal(got, pair[1])) {
-				rep.AddViolation(verifkit.Violation{Key: "C19/torn-file-after-interruption/" + file,
-					Text:   fmt.Sprintf("%s at file-system syscall #%d of the write path left %s neither the previous nor the new complete file (err=%v, %d bytes, starts %q)", kind, k, file, err, len(got), string(got[:min(len(got), 40)])),
-					Replay: map[string]any{"kind": kind, "syscall_index": k}})
-			}
-		}
-		// no temp files may be mistaken for the real ones: the directory may hold leftovers, but only with the temp suffix
-		entries, _ := os.ReadDir(dir)
-		for _, e := range entries {
-			n := e.Name()
-			if n != "index-state.json" && n != "manifest.json" && !strings.HasSuffix(n, ".tmp") && !strings.HasPrefix(n, "strace") {
-				rep.AddViolation(verifkit.Violation{Key: "C19/unexpected-file-after-interruption", Text: fmt.Sprintf("%s at syscall #%d left an unexpected file %q", kind, k, n), Replay: map[string]any{"kind": kind, "syscall_index": k}})
-			}
-		}
-	}
-	shard, nsh := verifkit.Shard()
-	for k := 1; k <= total; k++ {
-		if k%nsh != shard {
-			continue
-		}
-		for _, kind := range []string{"signal=KILL", "error=EIO", "error=ENOSPC"} {
-			dir := prepare()
-			out, _ := runHelper(dir, kind+":when="+strconv.Itoa(k))
-			rep.Trace()
-			rep.Transitions(1)
-			rep.State(fmt.Sprintf("%s@%d", kind, k))
-			rep.Nontrivial(fmt.Sprintf("%s@%d", kind, k))
-			check(kind, k, dir, out)
-			if k == 7 && kind == "signal=KILL" {
-				entries, _ := os.ReadDir(dir)
-				var names []string
-				for _, e := range entries {
-					names = append(names, e.Name())
-				}
-				rep.Sample(map[string]any{"inject": kind, "syscall_index": k, "directory_after": names})
-			}
+	for _, fresh = range []bool{false, true} {
+		// measure N from an uninjected run
+		dir := prepare()
+		if out, err := runHelper(dir, ""); err != nil {
+			rep.Cap("uninjected helper run under strace failed: " + err.Error() + " " + out)
 			os.RemoveAll(dir)
+			rep.EvalN(1)
+			rep.State("strace-failed")
+			rep.State("strace-failed-2")
+			rep.Sample("strace failed")
+			return
+		}
+		total := 0
+		if b, err := os.ReadFile(filepath.Join(dir, "strace-count.txt")); err == nil {
+			for _, l := range strings.Split(string(b), "\n") {
+				f := strings.Fields(l)
+				if len(f) >= 4 && strings.Contains(syscalls, f[len(f)-1]) && f[len(f)-1] != "total" {
+					n, _ := strconv.Atoi(f[3])
+					total += n
+				}
+			}
+		}
+		os.RemoveAll(dir)
+		if total < 10 || total > 2000 {
+			rep.Cap(fmt.Sprintf("implausible number of file-system syscalls measured: %d", total))
+			total = 200
+		}
+		rep.Bound(fmt.Sprintf("file_syscalls_in_write_path_fresh_%v", fresh), total)
+		check := func(kind string, k int, dir string, helperOut string) {
+			// the manifest is read back through the real loader: it must parse and hold exactly the previous or the new installs
+			mode := map[bool]string{true: "first write", false: "replacement"}[fresh]
+			rep.Eval()
+			if m, err := LoadManifest(filepath.Join(dir, "manifest.json")); err != nil {
+				rep.AddViolation(verifkit.Violation{Key: "C19/torn-file-after-interruption/manifest.json",
+					Text:   fmt.Sprintf("%s at file-system syscall #%d of the %s left an install manifest that cannot be loaded: %q", kind, k, mode, firstLineC19(err)),
+					Replay: map[string]any{"kind": kind, "syscall_index": k, "fresh": fresh}})
+			} else if n := len(m.Installs); !(n == 60 || (!fresh && n == 40) || (fresh && n == 0)) {
+				rep.AddViolation(verifkit.Violation{Key: "C19/torn-file-after-interruption/manifest.json",
+					Text:   fmt.Sprintf("%s at file-system syscall #%d of the %s left an install manifest with %d entries: neither the previous nor the new one", kind, k, mode, n),
+					Replay: map[string]any{"kind": kind, "syscall_index": k, "fresh": fresh}})
+			}
+			for file, pair := range map[string][2][]byte{"index-state.json": {oldState, newState}, "blob.bin": {oldBlob, newBlob}} {
+				got, err := os.ReadFile(filepath.Join(dir, file))
+				rep.Eval()
+				if fresh && os.IsNotExist(err) {
+					continue // first write: "previous" = no file
+				}
+				if err != nil || (!bytes.Equal(got, pair[0]) && !bytes.Equal(got, pair[1])) || (fresh && bytes.Equal(got, pair[0])) {
+					rep.AddViolation(verifkit.Violation{Key: "C19/torn-file-after-interruption/" + file,
+						Text:   fmt.Sprintf("%s at file-system syscall #%d of the write path left %s neither the previous nor the new complete file (err=%v, %d bytes, starts %q)", kind, k, file, err, len(got), string(got[:min(len(got), 40)])),
+						Replay: map[string]any{"kind": kind, "syscall_index": k}})
+				}
+			}
+			// no temp files may be mistaken for the real ones: the directory may hold leftovers, but only with the temp suffix
+			entries, _ := os.ReadDir(dir)
+			for _, e := range entries {
+				n := e.Name()
+				if n != "index-state.json" && n != "manifest.json" && n != "blob.bin" && !strings.HasSuffix(n, ".tmp") && !strings.HasPrefix(n, "strace") {
+					rep.AddViolation(verifkit.Violation{Key: "C19/unexpected-file-after-interruption", Text: fmt.Sprintf("%s at syscall #%d left an unexpected file %q", kind, k, n), Replay: map[string]any{"kind": kind, "syscall_index": k}})
+				}
+			}
+		}
+		shard, nsh := verifkit.Shard()
+		for k := 1; k <= total; k++ {
+			if k%nsh != shard {
+				continue
+			}
+			for _, kind := range []string{"signal=KILL", "error=EIO", "error=ENOSPC"} {
+				dir := prepare()
+				out, _ := runHelper(dir, kind+":when="+strconv.Itoa(k))
+				rep.Trace()
+				rep.Transitions(1)
+				rep.State(fmt.Sprintf("%s@%d fresh=%v", kind, k, fresh))
+				rep.Nontrivial(fmt.Sprintf("%s@%d fresh=%v", kind, k, fresh))
+				check(kind, k, dir, out)
+				if k == 7 && kind == "signal=KILL" {
+					entries, _ := os.ReadDir(dir)
+					var names []string
+					for _, e := range entries {
+						names = append(names, e.Name())
+					}
+					rep.Sample(map[string]any{"inject": kind, "syscall_index": k, "directory_after": names})
+				}
+				os.RemoveAll(dir)
+			}
 		}
 	}
 	rep.Outcome("old-or-new")
